@@ -78,6 +78,15 @@ func famRepro(tr *Trace, scratch string, seed int64, tier string, nfpmBin string
 			pc.Nodes = append(pc.Nodes, Node{P: "src/large.bin", Kind: "file", Mode: 0o644, Mt: 1400000000, Size: len(b), data: b, Cid: cidOf(b)})
 			c.Entries = append(c.Entries, Entry{Type: "file", Src: "src/large.bin", Dst: "/opt/repro/large.bin"})
 		}
+		if i == 3 { // a glob relative to the working directory that matches dot files and a dot directory
+			for _, dn := range []struct{ p, body string }{{"dots/.env", "A=1\n"}, {"dots/.cache/x", "x\n"}, {"dots/plain", "p\n"}} {
+				b := []byte(dn.body)
+				pc.Nodes = append(pc.Nodes, Node{P: dn.p, Kind: "file", Mode: 0o644, Mt: 1400000001, Size: len(b), data: b, Cid: cidOf(b)})
+			}
+			pc.Nodes = append(pc.Nodes, Node{P: "dots", Kind: "dir", Mode: 0o755, Mt: 1400000001}, Node{P: "dots/.cache", Kind: "dir", Mode: 0o755, Mt: 1400000001})
+			c.Entries = append(c.Entries, Entry{Type: "file", Src: "dots/*", Dst: "/opt/dots"}, Entry{Type: "file", Src: "dots/.c*", Dst: "/opt/dots2"})
+			c.NoGlob = false
+		}
 		Materialise(pc.Root, pc.Nodes)
 		if c.Changelog != nil {
 			must(os.WriteFile(filepath.Join(pc.Root, "changelog.yaml"), []byte(c.ChangelogYAML()), 0o644))
@@ -114,7 +123,7 @@ func famRepro(tr *Trace, scratch string, seed int64, tier string, nfpmBin string
 	cross := func(r *rc, tz, style string) {
 		c := r.pc.Cfg
 		for _, f := range r.pc.Formats {
-			out := filepath.Join(r.pc.Root, "out."+f)
+			out := filepath.Join(scratch, fmt.Sprintf("out-%d.%s", r.pc.ID, f))
 			cfgFile := filepath.Join(r.pc.Root, "nfpm-abs.yaml")
 			cwd := scratch
 			if style == "rel" {
